@@ -299,6 +299,12 @@ impl State {
     pub fn handle_error(&mut self, err: &proto::Error) {
         match self.inner {
             Closed(..) => {}
+            // The peer's message was already complete: keep that fact so the
+            // application still sees a clean end of the received body.
+            HalfClosedRemote(..) => {
+                tracing::trace!("handle_error; err={:?}", err);
+                self.inner = Closed(Cause::ErrorAfterEndStream(err.clone()));
+            }
             _ => {
                 tracing::trace!("handle_error; err={:?}", err);
                 self.inner = Closed(Cause::Error(err.clone()));
@@ -309,6 +315,18 @@ impl State {
     pub fn recv_eof(&mut self) {
         match self.inner {
             Closed(..) => {}
+            // The peer's message was already complete: keep that fact so the
+            // application still sees a clean end of the received body.
+            HalfClosedRemote(..) => {
+                tracing::trace!("recv_eof; state=HalfClosedRemote");
+                self.inner = Closed(Cause::ErrorAfterEndStream(
+                    io::Error::new(
+                        io::ErrorKind::BrokenPipe,
+                        "stream closed because of a broken pipe",
+                    )
+                    .into(),
+                ));
+            }
             ref state => {
                 tracing::trace!("recv_eof; state={:?}", state);
                 self.inner = Closed(Cause::Error(
